@@ -27,7 +27,9 @@ class Hang(BaseException):
 
 
 class watchdog:
-    """wall-clock budget around one call into the implementation (process main thread only)"""
+    """CPU-time budget (user + system time of this process: ITIMER_PROF) around one call into the implementation, main thread
+    only.  CPU time, not wall-clock time: a loaded machine must not turn into a "hang" (it did once, in the thorough tier, while
+    other checks were running); an endless loop burns CPU and is caught all the same."""
 
     def __init__(self, seconds=10.0):
         self.seconds = seconds
@@ -37,8 +39,8 @@ class watchdog:
 
     def __enter__(self):
         try:
-            self.old = signal.signal(signal.SIGALRM, self._fire)
-            signal.setitimer(signal.ITIMER_REAL, self.seconds)
+            self.old = signal.signal(signal.SIGPROF, self._fire)
+            signal.setitimer(signal.ITIMER_PROF, self.seconds)
             self.armed = True
         except ValueError:       # not in the main thread: no budget
             self.armed = False
@@ -46,8 +48,8 @@ class watchdog:
 
     def __exit__(self, *a):
         if self.armed:
-            signal.setitimer(signal.ITIMER_REAL, 0)
-            signal.signal(signal.SIGALRM, self.old)
+            signal.setitimer(signal.ITIMER_PROF, 0)
+            signal.signal(signal.SIGPROF, self.old)
         return False
 
 
@@ -264,7 +266,8 @@ def engine_trace(text, name="file.c"):
                     first = sig[0].type if sig else ""
                     before = state["before"]
                     events.append(dict(
-                        rule=rule, n=stop, nl=sum(1 for t in st if t.type == "NEWLINE"),
+                        rule=rule, n=stop, nl=sum(1 for t in st if t.type == "NEWLINE")
+                        + sum((t.value or "").count("\n") for t in st if t.type == "MULT_COMMENT"),   # lines, as CheckLineCount counts them
                         nextLBrace=bool(rest and rest[0].type == "LBRACE"),
                         opensControl=(rule == "IsControlStatement" and last != "SEMI_COLON"),
                         opensType=(rule == "IsUserDefinedType" and last != "SEMI_COLON" and bool(st) and st[-1].type == "NEWLINE"),
